@@ -66,6 +66,17 @@ Theorem C02_mainq_not_stranded : forall m prio rb, valid_tid m -> 0 <= rb < 2 ->
 Proof. exact mainq_not_stranded. Qed.
 Print Assumptions C02_mainq_not_stranded.
 
+
+(* the bound thread waiting for the head link / a successor link of its snapshot is never stuck: the enqueuer that owes
+   the link is at its link program point and can take its step *)
+Theorem C02_mainq_drain_waits_not_stuck : forall m prio rb s t,
+  valid_tid m -> 0 <= rb < 2 -> mreach m prio rb s ->
+  mpcs s t = MB_head \/ mpcs s t = MB_next ->
+  (exists s', mstep s t = Some s') \/
+  (exists u i w q s', u <> t /\ pcs (lane s) u = PA_link i w q /\ mstep s u = Some s').
+Proof. exact mainq_drain_waits_not_stuck. Qed.
+Print Assumptions C02_mainq_drain_waits_not_stuck.
+
 (* at rest: the handle of a non-empty thread-bound main queue is readable ... *)
 Theorem C02_mainq_quiescent_readable : forall m prio rb, valid_tid m -> 0 <= rb < 2 -> forall s,
   mreach m prio rb s ->
